@@ -279,6 +279,11 @@ func (tr *FnTrans) val(v ssa.Value) Val {
 func (tr *FnTrans) define(v ssa.Value, val Val) {
 	switch val.K {
 	case KInt, KBool, KStr, KSlice, KRef, KIface, KOpaque:
+		if (val.K == KSlice && strings.HasPrefix(val.T, "(mk-slice ")) || (val.K == KIface && strings.HasPrefix(val.T, "(mk-iface ")) {
+			// keep constructor terms literal: accessors simplify syntactically
+			val.T = simplifyTerm(val.T)
+			break
+		}
 		if !isSimpleTerm(val.T) {
 			n := tr.vc.fresh(tr.ssaName(v), kindSort(val.K))
 			tr.vc.fact(sEq(n, val.T), "")
